@@ -29,8 +29,8 @@ impl Prop for C09 {
     }
     fn work(&self, tier: Tier) -> Work {
         match tier {
-            Tier::Quick => Work { cases_per_worker: 2000, workers: 8 },
-            Tier::Thorough => Work { cases_per_worker: 40_000, workers: 16 },
+            Tier::Quick => Work { cases_per_worker: 10000, workers: 8 },
+            Tier::Thorough => Work { cases_per_worker: 160000, workers: 16 },
         }
     }
     fn strategy(&self, _tier: Tier) -> BoxedStrategy<Sc09> {
@@ -70,8 +70,8 @@ impl Prop for C10 {
     }
     fn work(&self, tier: Tier) -> Work {
         match tier {
-            Tier::Quick => Work { cases_per_worker: 2000, workers: 8 },
-            Tier::Thorough => Work { cases_per_worker: 30_000, workers: 16 },
+            Tier::Quick => Work { cases_per_worker: 10000, workers: 8 },
+            Tier::Thorough => Work { cases_per_worker: 120000, workers: 16 },
         }
     }
     fn strategy(&self, _tier: Tier) -> BoxedStrategy<Sc10> {
@@ -110,8 +110,8 @@ impl Prop for C11 {
     }
     fn work(&self, tier: Tier) -> Work {
         match tier {
-            Tier::Quick => Work { cases_per_worker: 600, workers: 8 },
-            Tier::Thorough => Work { cases_per_worker: 20_000, workers: 16 },
+            Tier::Quick => Work { cases_per_worker: 3000, workers: 8 },
+            Tier::Thorough => Work { cases_per_worker: 80000, workers: 16 },
         }
     }
     fn strategy(&self, _tier: Tier) -> BoxedStrategy<Sc11> {
@@ -172,20 +172,20 @@ fn c06_probes() -> Vec<(String, String, SScenario)> {
     )]
 }
 
-server_prop!(C08, "C08", sprops::c08_profile, sprops::c08_check, 2000, 30_000,
+server_prop!(C08, "C08", sprops::c08_profile, sprops::c08_check, 10000, 120000,
     "Scenario = server channel config (no limiter; raw Requests path or execute() adaptor; response buffer 1-4; transport cap 1-3, both readiness models) + up to 70 generated ops: requests with fresh small ids, fresh 64-bit ids, \
      ids duplicating an in-flight request, ids reused after their response was written; cancels (incl. unknown ids), handler completions in generated order, handlers dropped, sink blocked, peer close, channel drop. \
      Oracle: reference model of read-and-unanswered ids: each non-duplicate request read is offered exactly once, in arrival order; duplicates-in-flight are ignored; every Response written bears an id that is read-and-unanswered at that moment (so at most one per request, none after cancel/expiry), \
      only after its handler completed and with that handler's result. Non-trivial = a duplicate-in-flight and an id reuse both occurred and >=2 handlers completed out of order; distinct = distinct scenario JSON.");
 
-server_prop!(C06, "C06", sprops::c06_profile, sprops::c06_check, 2000, 30_000,
+server_prop!(C06, "C06", sprops::c06_profile, sprops::c06_check, 10000, 120000,
     "Scenario = server channel config (limit none/1/2/4, both paths, both readiness models) + up to 70 generated ops under virtual time: 1-6 concurrent requests with deadlines already expired, 0, us..minutes, days..2.1y; \
      clock steps landing on deadline-1ms/deadline/+1ms/+2ms; handlers completed before/at/after their deadline; sink blocked for stretches (finding F6 region steered around and counted). \
      Oracle: no handler is dropped unfinished before its deadline without a cancel/application drop/channel drop; at the first quiescence >= max(D, read time)+2ms the handler is gone and never polled again; nothing is written for an expired request; \
      a handler that completed before D is answered at the next writable quiescence before D. Non-trivial = one request expired while another with a different deadline was answered later, or a completion within 1 ms of its deadline; distinct = distinct scenario JSON.",
     c06_probes);
 
-server_prop!(C12, "C12", sprops::c12_profile, sprops::c12_check, 2000, 30_000,
+server_prop!(C12, "C12", sprops::c12_profile, sprops::c12_check, 10000, 120000,
     "Scenario = server channel behind max_concurrent_requests(L), L in {0,1,2,3,5}, + up to 70 generated ops: bursts larger than L, cancels, a Cancel immediately followed by a fresh request before one poll, completions and response writes in any order, sink blocked for stretches, duplicates-in-flight. \
      Oracle: reference model of the in-flight set kept as [lower, upper] (expiry within 2 ms of a read is the only uncertainty): a request is handed to the application only if lower < L when it was read; it is refused only if upper >= L at that moment; \
      a refusal is exactly one Response with kind WouldBlock and the documented text and no handler; every read request gets one of the two. Non-trivial = a throttled and an admitted request both occurred after the count had reached L and dropped again; distinct = distinct scenario JSON.");
@@ -211,8 +211,8 @@ impl Prop for C04 {
     }
     fn work(&self, tier: Tier) -> Work {
         match tier {
-            Tier::Quick => Work { cases_per_worker: 2000, workers: 8 },
-            Tier::Thorough => Work { cases_per_worker: 30_000, workers: 16 },
+            Tier::Quick => Work { cases_per_worker: 10000, workers: 8 },
+            Tier::Thorough => Work { cases_per_worker: 120000, workers: 16 },
         }
     }
     fn strategy(&self, _tier: Tier) -> BoxedStrategy<Sc04> {
@@ -257,8 +257,8 @@ impl Prop for C07 {
     }
     fn work(&self, tier: Tier) -> Work {
         match tier {
-            Tier::Quick => Work { cases_per_worker: 1500, workers: 8 },
-            Tier::Thorough => Work { cases_per_worker: 20_000, workers: 16 },
+            Tier::Quick => Work { cases_per_worker: 7500, workers: 8 },
+            Tier::Thorough => Work { cases_per_worker: 80000, workers: 16 },
         }
     }
     fn strategy(&self, _tier: Tier) -> BoxedStrategy<Sc07> {
@@ -292,8 +292,8 @@ impl Prop for C18 {
     }
     fn work(&self, tier: Tier) -> Work {
         match tier {
-            Tier::Quick => Work { cases_per_worker: 1500, workers: 8 },
-            Tier::Thorough => Work { cases_per_worker: 20_000, workers: 16 },
+            Tier::Quick => Work { cases_per_worker: 7500, workers: 8 },
+            Tier::Thorough => Work { cases_per_worker: 80000, workers: 16 },
         }
     }
     fn strategy(&self, _tier: Tier) -> BoxedStrategy<Self::Scenario> {
